@@ -147,3 +147,39 @@ def state_chunker(F):
         return None
     c = [cb for cb, blk, t in local_callees(F, m) if cb.dk == 'Fn' and cb.self_adt is None]
     return c[0] if len(c) == 1 else None
+
+
+_ROLE_CACHE = {}
+
+
+def role_helpers(F):
+    """Def paths of private helpers that rules address by role (never inlined by vlib/inline.py)."""
+    k = id(F)
+    if k in _ROLE_CACHE:
+        return _ROLE_CACHE[k]
+    keep = set()
+    p = range_encoder_parts(F)
+    for name in ('seal', 'unseal', 'num_seal_words'):
+        if p.get(name) is not None:
+            keep.add(p[name].defpath)
+    r, _ = window_reader(F)
+    if r is not None:
+        keep.add(r.defpath)
+    fb, helper = ans_import_loops(F)
+    if helper is not None:
+        keep.add(helper.defpath)
+    ch = state_chunker(F)
+    if ch is not None:
+        keep.add(ch.defpath)
+    for b in validators(F).values():
+        keep.add(b.defpath)
+    # chain coder: private &mut self helpers of the coding steps (remainders-head flush / refill)
+    CH = 'stream::chain::ChainCoder'
+    for trait, name in (('stream::Decode', 'decode_symbol'), ('stream::Encode', 'encode_symbol')):
+        m = method(F, CH, name, trait)
+        if m is not None:
+            for cb, blk, t in local_callees(F, m):
+                if cb.self_adt == CH and cb.impl_trait is None and cb.vis != 'pub' and cb.receiver_kind() == '&mut self':
+                    keep.add(cb.defpath)
+    _ROLE_CACHE[k] = keep
+    return keep
